@@ -16,7 +16,7 @@ def validate(ctx, module, cfg, traces, *, name=None, chunk=400, timeout=3600, de
         part = traces[off:off + chunk]
         path = os.path.join(ctx.work, "traces-%s-%d.json" % (name or os.path.basename(module), len(ctx.tlc_runs)))
         with open(path, "w") as f:
-            json.dump(part, f)
+            json.dump([{k: v for k, v in t.items() if k not in ('info', 'canary')} for t in part], f)
         r = ctx.tlc(module, cfg, name=name, workers=workers, env={"TRACE_FILE": path}, timeout=timeout, deque=deque)
         if r.violated:
             raise MachineryError("trace spec reported an invariant violation (verdicts must be total):\n" + r.trace_text())
